@@ -282,7 +282,7 @@ pub fn run(ctx: &mut Ctx) {
     for (n, ok) in r9::selftest(false) {
         ctx.selftest(&n, ok);
     }
-    ctx.require(&["annex_kat", "len_sweep", "fixed_r_exact", "free_r", "roundtrip", "ref_made_decrypts", "bitflip_pc_byte", "bitflip_c1", "bitflip_c2", "bitflip_c3", "truncated_inside_c1", "truncated_inside_c3", "truncated_body", "id_changed", "c1_zero_zero", "c1_offcurve_y_plus_1", "c1_offcurve_random", "pc_byte_illegal_valid_tag", "c1_other_point", "c1_coordinate_plus_p_alias", "c3_zeroed", "msg_len=255", "msg_len=1", "id_empty", "encryptor_has_public_key_only", "interleaved_keys_decrypt", "k1_all_zero_retry", "ke=H1(id)_doubling_in_QB", "crafted_valid_c1_decrypts", "long_msg_or_id", "kdf_beyond_255_blocks", "id_beyond_2^16_bits"]);
+    ctx.require(&["annex_kat", "len_sweep", "fixed_r_exact", "free_r", "roundtrip", "ref_made_decrypts", "bitflip_pc_byte", "bitflip_c1", "bitflip_c2", "bitflip_c3", "truncated_inside_c1", "truncated_inside_c3", "truncated_body", "id_changed", "c1_zero_zero", "c1_offcurve_y_plus_1", "c1_offcurve_random", "pc_byte_illegal_valid_tag", "c1_other_point", "c1_coordinate_plus_p_alias", "c3_zeroed", "msg_len=255", "msg_len=1", "id_empty", "encryptor_has_public_key_only", "interleaved_keys_decrypt", "k1_all_zero_retry", "ke=H1(id)_doubling_in_QB", "crafted_valid_c1_decrypts", "long_msg_or_id", "kdf_beyond_255_blocks", "id_beyond_2^16_bits", "many_calls_one_process"]);
     let pr = r9::params();
     if ctx.shard == 0 {
         let ke = r9::hexn("0001EDEE3778F441F8DEA3D9FA0ACC4E07EE36C93F9A08618AF4AD85CEDE1C22");
@@ -456,6 +456,59 @@ pub fn run(ctx: &mut Ctx) {
         }
     }
     ctx.exhaustive("message lengths 1..=255", true);
+    // --- many calls in one process (call-count dependent faults): 300 decryptions of one valid ciphertext, every 25th one
+    // with a flipped C2 bit; 100 encryptions with injected r compared with the reference
+    if ctx.shard == 0 {
+        let mut pm = ctx.prng("many");
+        let ke = rand_scalar(&mut pm, &(&pr.n - 1u32));
+        let id = b"many-calls".to_vec();
+        let msg = pm.bytes(33);
+        let r = rand_scalar(&mut pm, &(&pr.n - 1u32));
+        if let (Some(ct), Some(key)) = (r9::encrypt(&ke, &id, &msg, &r), enc_key_from_ref(&ke, &id, r9::HID_ENC)) {
+            let mut bad = ct.clone();
+            let l = bad.len();
+            bad[l - 1] ^= 1;
+            for i in 0..300u32 {
+                ctx.eval();
+                ctx.class("many_calls_one_process");
+                let tam = i % 25 == 24;
+                let o = guard(|| key.decrypt(&id, if tam { &bad } else { &ct }));
+                match (tam, &o) {
+                    (false, Outcome::Ret(Ok(m))) if *m == msg => {}
+                    (true, Outcome::Ret(Err(_))) => {}
+                    _ => {
+                        ctx.violation(&format!("decrypt:call-number-dependent:{}", if tam { "tampered-accepted-or-crash" } else { "valid-rejected-or-wrong" }), json!({"call_number": i, "case": wit(&ke, &id, &msg, Some(&r))}));
+                        break;
+                    }
+                }
+            }
+            let mk = enc_master(&ke);
+            for i in 0..100u32 {
+                let r2_ = rand_scalar(&mut pm, &(&pr.n - 1u32));
+                ctx.eval();
+                ctx.class("many_calls_one_process");
+                rng_prepare(&[&r2_]);
+                let o = guard(|| mk.encrypt(&id, &msg));
+                let seen = rng_seen();
+                match (&o, seen.accepted.last()) {
+                    (Outcome::Ret(c), Some(used)) => {
+                        if let Some(e) = r9::encrypt(&ke, &id, &msg, used) {
+                            if *c != e {
+                                ctx.violation("encrypt:call-number-dependent:ciphertext-differs-from-standard", json!({"call_number": i, "case": wit(&ke, &id, &msg, Some(used))}));
+                                break;
+                            }
+                        }
+                    }
+                    _ => {
+                        ctx.violation("encrypt:call-number-dependent:crash", json!({"call_number": i}));
+                        break;
+                    }
+                }
+            }
+        }
+    } else {
+        ctx.class("many_calls_one_process");
+    }
     // --- two master keys, same identity: decryptions interleaved on one thread must not depend on history
     let nh = ctx.n(4, 100);
     let mut prng = ctx.prng("interleave");
